@@ -8,8 +8,11 @@ from .common import tlc, log, workdir, ToolError
 
 # quantities with three and four decimals: every front-end shows quantities exactly (C17)
 G1 = ('2020-06-01 BUY AAA 10.5 @ 5\n2020-07-01 SELL AAA 4.375 @ 8 FEES 1\n2020-07-15 BUY AAA 2.125 @ 6\n'
-      '2021-06-10 DIVIDEND AAA TOTAL 3 TAX 1\n2021-09-01 SELL AAA 3.3333 @ 4\n2021-09-01 BUY BBB 5 @ 2.125\n2021-09-01 SELL BBB 1.5 @ 2.5\n2021-10-05 SELL BBB 3.5 @ 2.25\n')
+      '2021-06-10 DIVIDEND AAA TOTAL 3 TAX 1\n2021-09-01 SELL AAA 3.3333 @ 4\n2021-09-01 BUY BBB 5 @ 2.125\n2021-09-01 SELL BBB 1.5 @ 2.5\n2021-10-05 SELL BBB 3.5 @ 2.25\n'
+      # a capital return months after every AAA sale: it still moves the cost of the lots those sales drew on
+      '2022-03-01 CAPRETURN AAA 4 TOTAL 2.5 FEES 0\n')
 UNCOVERED = '2020-06-01 BUY AAA 10 @ 5\n2020-07-01 SELL AAA 40 @ 8\n'
+DIVONLY = '2024-06-10 DIVIDEND AAA TOTAL 200.50 TAX 12\n2024-09-10 DIVIDEND BBB TOTAL 10 USD TAX 0\n'     # an income-only year: no BUY, no SELL
 NOEXEMPT = '2030-06-01 BUY AAA 10 @ 5\n2030-07-01 SELL AAA 4 @ 8\n'
 OVERFLOW = '2020-06-01 BUY AAA 1 @ 79228162514264337593543950335 FEES 1\n'
 # a ledger with a disposal in a tax year that has no configured exemption: a single-year report of another year is still possible
@@ -27,6 +30,7 @@ def classes(g1_json):
         'calc_all': call('calculate_report', {'transactions': G1}),
         'calc_json': call('calculate_report', {'transactions': g1_json}),
         'calc_year': call('calculate_report', {'transactions': G1, 'year': 2020}),
+        'calc_divonly': call('calculate_report', {'transactions': DIVONLY, 'year': 2024}),
         # input sniffing: JSON after leading white space, DSL after leading blank and comment lines, JSON through the parse tool
         'calc_json_ws': call('calculate_report', {'transactions': '\n  \t' + g1_json + '\n'}),
         'calc_dsl_lead': call('calculate_report', {'transactions': '\n# my ledger [2020]\n\n' + G1}),
@@ -270,6 +274,8 @@ def _mcp_check(tier, seed):
         expect['calc_json_ws'] = expect['calc_all']
         expect['calc_dsl_lead'] = expect['calc_all']
         expect['calc_year'] = {'kind': 'result', 'digest': cli_digest(['report', '--format', 'json', '--year', '2020', 'g1.cgt'], core)}
+        open(os.path.join(root, 'ref', 'divonly.cgt'), 'w').write(DIVONLY)
+        expect['calc_divonly'] = {'kind': 'result', 'digest': cli_digest(['report', '--format', 'json', '--year', '2024', 'divonly.cgt'], core)}
         expect['parse'] = {'kind': 'result', 'digest': cli_digest(['parse', 'g1.cgt'], lambda j: j)}
         expect['parse_json'] = expect['parse']
         open(os.path.join(root, 'ref', 'g2.cgt'), 'w').write(G2)
@@ -339,8 +345,9 @@ def _mcp_check(tier, seed):
                     if pence(me['allowable_cost']) != pence(mc['allowable_cost']) or Decimal(me['quantity']) != Decimal(mc['quantity']):
                         bad.append(f'leg {me["rule"]}: {me["quantity"]} @ cost {me["allowable_cost"]} vs {mc["quantity"]} @ {mc["allowable_cost"]}')
                 if bad:
-                    findings.append({'prop': 'C17', 'kind': 'mcp_explain_figures', 'case': 0, 'input': G1, 'data': {},
-                                     'detail': f'explain_matching for {t} on {d} disagrees with the report: ' + '; '.join(bad)})
+                    for pr in ('C17', 'C20'):
+                        findings.append({'prop': pr, 'kind': 'mcp_explain_figures', 'case': 0, 'input': G1, 'data': {},
+                                         'detail': f'explain_matching for {t} on {d} disagrees with the report: ' + '; '.join(bad)})
             except Exception as e:
                 findings.append({'prop': 'C20', 'kind': 'explain_unreadable', 'case': 0, 'input': G1, 'data': {}, 'detail': f'explain_matching result for {t} on {d} cannot be read: {e}'})
         # get_fx_rate returns the bundled HMRC rate of exactly that currency and month (C08)
